@@ -14,8 +14,9 @@ import z3
 import symframe
 from symx import Engine, ModelGap, SymBool, SymInt, SymReal, SymStr, _Proxy, ev
 
-DT = {"int": np.dtype("int64"), "float": np.dtype("float64"), "str": np.dtype(object), "bool": np.dtype(bool)}
-SORT = {"int": z3.IntSort(), "float": z3.RealSort(), "str": z3.StringSort(), "bool": z3.BoolSort()}
+# "Int": pandas' nullable integer extension dtype (kind 'i', but cells can be <NA>)
+DT = {"int": np.dtype("int64"), "float": np.dtype("float64"), "str": np.dtype(object), "bool": np.dtype(bool), "Int": pd.Int64Dtype()}
+SORT = {"int": z3.IntSort(), "float": z3.RealSort(), "str": z3.StringSort(), "bool": z3.BoolSort(), "Int": z3.IntSort()}
 PRINTABLE = z3.Star(z3.Range(" ", "~"))
 BOUND = 2**31
 
@@ -157,6 +158,14 @@ class V:
         self.sym = vals is None
         self.vars: dict = {}
         self.notes: dict = {}
+        # every execution of a template starts from the pristine context configuration: what one execution leaks must be
+        # seen by that execution's own before/after comparison, not hidden from the next one
+        try:
+            from pandera.config import reset_config_context
+
+            reset_config_context()
+        except Exception:  # noqa: BLE001 - templates that do not touch pandera's configuration
+            pass
 
     # ------------------------------------------------------------------ scalars
     def _var(self, name, sort):
@@ -243,7 +252,7 @@ class V:
         nulls = [self._var(f"{name}{i}_null", z3.BoolSort()) if nullable else z3.BoolVal(False) for i in range(n)]
         if self.sym:
             for v in vals:
-                if kind in ("int", "float"):
+                if kind in ("int", "float", "Int"):
                     self.e.assume(z3.And(v >= -BOUND, v <= BOUND))
                 if kind == "str":
                     self.e.assume(z3.InRe(v, PRINTABLE))
@@ -263,14 +272,14 @@ class V:
         for v, nl in zip(vals, nulls):
             isnull = bool(self.vals.term(nl))
             if isnull:
-                cv.append(float("nan") if kind == "float" else None)
+                cv.append(float("nan") if kind == "float" else pd.NA if kind == "Int" else None)
             else:
                 x = self.vals.term(v)
                 cv.append(float(x) if kind == "float" else x)
         return cv
 
     def series(self, name, kind, n, nullable=None, labels=None, sname=None, distinct_labels=False, index_name=None):
-        nullable = (kind in ("float", "str")) if nullable is None else nullable
+        nullable = (kind in ("float", "str", "Int")) if nullable is None else nullable
         vals, nulls = self.cells(name, kind, n, nullable)
         lab = self.labels(labels, n, distinct_labels) if labels else list(range(n))
         if self.sym:
@@ -284,7 +293,7 @@ class V:
         data = []
         for ci, c in enumerate(cols):
             kind = c[1]
-            nullable = (kind in ("float", "str")) if len(c) < 3 or c[2] is None else c[2]
+            nullable = (kind in ("float", "str", "Int")) if len(c) < 3 or c[2] is None else c[2]
             prefix = f"{c[0]}_" if [x[0] for x in cols].count(c[0]) == 1 else f"{c[0]}{ci}_"
             if len(c) > 3 and c[3] is not None:
                 conc = list(c[3])[:n]
@@ -378,11 +387,13 @@ def norm_val(x):
 def norm_case(x):
     """failure case value; the rendered text of an exception raised inside a check is message text (outside the claim)"""
     x = norm_val(x)
+    if isinstance(x, bool):
+        return float(x)  # pandas upcasts a boolean failure case that shares the column with numbers (False -> 0.0)
     if isinstance(x, str):
         import re as _re
 
-        m = _re.match(r"^([A-Za-z_][A-Za-z0-9_]*(Error|Exception|Injected))\(", x)
-        if m:
+        m = _re.match(r"^([A-Za-z_][A-Za-z0-9_]*)\(", x)
+        if m and m.group(1).endswith(("Error", "Exception", "Injected")):
             return m.group(1) + "(...)"
     return x
 
@@ -517,7 +528,7 @@ def _pl_num(x):
     if isinstance(x, str) and (x.startswith("{") or x == "<struct>"):
         return "<struct>"  # JSON text of a multi-column failure case: outside the claim
     if x in ("true", "false"):
-        return x == "true"
+        return float(x == "true")
     if isinstance(x, str):
         try:
             return round(float(x), 9)
